@@ -1,4 +1,4 @@
-use super::{quoted_string_literal, CrateTypes, Language};
+use super::{doc_lines, quoted_string_literal, CrateTypes, Language};
 use crate::language::SupportedLanguage;
 use crate::parser::{remove_dash_from_identifier, ParsedData};
 use crate::rust_types::{
@@ -406,13 +406,8 @@ impl Scala {
     ) -> std::io::Result<()> {
         // A doc comment written as `/** .. */` or `#[doc = ".."]` may span lines: every line
         // has to be a comment line of its own.
-        for line in comment.split('\n') {
-            writeln!(
-                w,
-                "{}// {}",
-                "\t".repeat(indent),
-                line.trim_end_matches('\r')
-            )?;
+        for line in doc_lines(comment) {
+            writeln!(w, "{}// {}", "\t".repeat(indent), line)?;
         }
         Ok(())
     }
